@@ -68,6 +68,9 @@ def run(ctx):
         cfgs.append(c2)
         cfgs.append(dict(c2, lens=[c2["W"] + 33, c2["W"] + 12], data_seed=c2["data_seed"] + 1))
         cfgs.append(dict(c2, lens=[c2["W"] + 22, c2["W"] + 23], data_seed=c2["data_seed"] + 2))
+        # series of exactly EQUAL shape (two, and three): the joint brick must still be series after series
+        cfgs.append(dict(c2, lens=[c2["W"] + 21, c2["W"] + 21], data_seed=c2["data_seed"] + 3))
+        cfgs.append(dict(c2, lens=[c2["W"] + 14] * 3, data_seed=c2["data_seed"] + 4, K=2))
     outs = ctx.driver.run([f"mask {show_list(t)}" for t in tuples])
     gen_cases = []
     for t, out in zip(tuples, outs):
